@@ -70,6 +70,8 @@ class Vals(dict):
     def term(self, t):
         if isinstance(t, (_Proxy, SymStr)):
             t = t.z
+        if isinstance(t, tuple):
+            return str(tuple(self.term(x) for x in t))
         if not z3.is_expr(t):
             return t
         if self.decls is not None:
@@ -298,6 +300,23 @@ class V:
         return df
 
 
+    def mi_frame(self, cols, n, levels):
+        """frame with a MultiIndex; levels: list of (level name, variable prefix) of int labels."""
+        labs = [self.labels(p, n) for _, p in levels]
+        data = []
+        for c in cols:
+            kind = c[1]
+            vals, nulls = self.cells(f"{c[0]}_", kind, n, kind in ("float", "str"))
+            data.append((c[0], kind, vals, nulls))
+        names = [nm for nm, _ in levels]
+        if self.sym:
+            idx = symframe.MultiIndex(labs, names)
+            return symframe.DataFrame([(k, symframe.Series(vals, nulls=nulls, dtype=DT[kind], index=idx.copy())) for k, kind, vals, nulls in data], index=idx)
+        arrays = [[self.vals.term(l) for l in lv] for lv in labs]
+        idx = pd.MultiIndex.from_arrays([pd.array(a, dtype="int64") for a in arrays], names=names) if n else pd.MultiIndex.from_arrays([pd.array([], dtype="int64") for _ in arrays], names=names)
+        return pd.DataFrame({k: pd.Series(self._conc_cells(vals, nulls, kind), dtype=DT[kind], index=idx) for k, kind, vals, nulls in data}, index=idx)
+
+
 # ------------------------------------------------------------------ observations (comparable across modes)
 def norm_val(x):
     if x is None:
@@ -312,6 +331,17 @@ def norm_val(x):
     if isinstance(x, str) and type(x) is not str:
         return str.__str__(x)
     return str(x)
+
+
+def norm_idx(x):
+    """row label of a failure case; MultiIndex labels are rendered tuples (text is outside the claim: compare numerically)"""
+    x = norm_val(x)
+    if isinstance(x, str) and x.startswith("(") and x.endswith(")"):
+        try:
+            return str(tuple(float(p) for p in x[1:-1].split(",") if p.strip()))
+        except ValueError:
+            return x
+    return x
 
 
 def _evv(vals: Vals, t):
@@ -351,12 +381,12 @@ def fc_rows_shim(fc, vals: Vals):
         if _evv(vals, p):
             g = lambda k: None if _evv(vals, cols[k].nulls[r]) else norm_val(_evv(vals, cols[k].vals[r]))  # noqa: E731
             rows.append((str(cols["schema_context"].vals[r]), str(cols["column"].vals[r]), str(cols["check"].vals[r]).split("(")[0],
-                         g("index"), g("failure_case")))
+                         norm_idx(g("index")), g("failure_case")))
     return sorted(rows, key=repr)
 
 
 def fc_rows_real(fc):
-    return sorted(((str(r.schema_context), str(r.column), str(r.check).split("(")[0], norm_val(r["index"]), norm_val(r.failure_case))
+    return sorted(((str(r.schema_context), str(r.column), str(r.check).split("(")[0], norm_idx(r["index"]), norm_val(r.failure_case))
                    for _, r in fc.iterrows()), key=repr)
 
 
@@ -445,7 +475,7 @@ def snapshot(obj):
 
 def _idx_snap(idx):
     if isinstance(idx, symframe.MultiIndex):
-        return ("MI", [list(l) for l in idx.levels], list(idx.names), None)
+        return ("MI", [list(l) for l in idx.levels], list(idx.names), str([str(d) for d in idx.dtypes]))
     return ("I", [list(idx.labels)], [idx.name], str(idx.dtype))
 
 
@@ -470,9 +500,9 @@ def equal_to_snapshot(v: V, obj, snap, values_only=False):
             return bool(_col_equal(a, b) and list(obj.index) == list(ref.index))
         if isinstance(ref, pd.DataFrame):
             return bool(obj.equals(ref) and list(obj.columns) == list(ref.columns) and list(map(str, obj.dtypes)) == list(map(str, ref.dtypes))
-                        and obj.index.equals(snap[2]) and list(obj.index.names) == list(snap[2].names) and str(obj.index.dtype) == str(snap[2].dtype))
+                        and obj.index.equals(snap[2]) and _real_idx_sig(obj.index) == _real_idx_sig(snap[2]))
         return bool(obj.equals(ref) and obj.name == ref.name and str(obj.dtype) == str(ref.dtype) and obj.index.equals(snap[2])
-                    and list(obj.index.names) == list(snap[2].names) and str(obj.index.dtype) == str(snap[2].dtype))
+                    and _real_idx_sig(obj.index) == _real_idx_sig(snap[2]))
     kind, cols, present, idx, name = snap
     if kind == "S":
         if not isinstance(obj, symframe.Series):
@@ -507,6 +537,12 @@ def equal_to_snapshot(v: V, obj, snap, values_only=False):
             row.append(la[i] == lb[i])
         terms.append(z3.Implies(present[i], z3.And(*row) if row else z3.BoolVal(True)))
     return v.holds(z3.And(*terms) if terms else z3.BoolVal(True))
+
+
+def _real_idx_sig(idx):
+    if isinstance(idx, pd.MultiIndex):
+        return (list(idx.names), [str(idx.get_level_values(i).dtype) for i in range(idx.nlevels)])
+    return (list(idx.names), str(idx.dtype))
 
 
 def _col_equal(a, b):
